@@ -1,4 +1,5 @@
-From SV Require Import Alloc.AllocStep Store.Masked Store.StoreInv World.Env World.EnvSim World.WorldSpec World.NoStuck World.Purge Props.C05.
+From SV Require Import Alloc.AllocStep Store.Masked Store.StoreInv World.Env World.EnvSim World.WorldSpec World.NoStuck World.Purge.
+From SV Require Import Props.C05.
 Check (C05_invariant : forall tr, regs_ok s_init tr = true -> saccept s_init tr 0 = None ->
   let w := fst (srun s_init tr) in
   table_covers (s_env w) /\ masks_live (s_life w) (s_env w)).
